@@ -733,6 +733,11 @@ pub fn evaluate_single(cfg: &RunCfg, rec: &RunRecord) -> (Vec<Finding>, Facts) {
                     stuck
                 );
                 out.push(f(p, "not-linearizable", msg.clone()));
+                if has_skip {
+                    // a history of pulls and skips that no order of one cursor explains violates
+                    // C04 ("one linearizable cursor") as much as C06
+                    out.push(f("C04", "not-linearizable", msg.clone()));
+                }
                 if has_query {
                     // a history that becomes linearizable once the queries are removed is a
                     // query problem (C11), otherwise a cursor problem
